@@ -875,10 +875,13 @@ struct TemplateCore {
             if (s_tag->GetType() == TagType::Math) {
                 start = s_tag->GetMathTag().Offset;
                 end   = s_tag->GetMathTag().EndOffset;
-            } else {
+            } else if ((s_tag->GetType() == TagType::Variable) || (s_tag->GetType() == TagType::RawVariable)) {
                 const VariableTag &var = s_tag->GetVariableTag();
                 start                  = (var.Offset - TagPatterns::VariablePrefixLength);
                 end                    = (var.Offset + var.Length + TagPatterns::InLineSuffixLength);
+            } else {
+                // Only variable, raw variable and math tags can be inside true="..." or false="...".
+                return false;
             }
 
             if (!(((tag.TrueOffset != SizeT16{0}) && (start >= true_start) && (end <= true_end)) ||
